@@ -140,15 +140,41 @@ def check_tiling(shape, mpd, merge):
         if [x * 1000 for x in flat(b)] != flat(g):
             probs.append("a gradient block covers a different index set than its parameter block")
             break
-    # row-major order within the merged shape: blocks equal the documented grid of slices of the merged view
-    mv = vals.reshape(ms) if shape else vals.reshape(ms)
-    if len(sl) != len(blocks):
-        probs.append(f"{len(blocks)} blocks, documented blocking has {len(sl)}")
+    # row-major order within the merged shape: blocks equal the grid of slices of a merged view.  With merging off the merged
+    # view is the original shape (no fusing at all); with merging on ANY valid fusion is accepted (runs of adjacent non-1 dims
+    # with product <= limit, size-1 dims dropped) -- maximal fusing is not required by the property.
+    def grid_matches(ms):
+        sl2 = R.block_slices(ms, mpd)
+        if len(sl2) != len(blocks):
+            return False
+        mv = vals.reshape(ms)
+        for b, s_ in zip(blocks, sl2):
+            exp = np.array(mv[s_])
+            if tuple(b.shape) != tuple(exp.shape) or flat(b) != [float(x) for x in exp.reshape(-1)]:
+                return False
+        return True
+
+    if not merge:
+        cands = [tuple(shape)]
     else:
-        for b, s in zip(blocks, sl):
-            if flat(b) != [float(x) for x in np.array(mv[s]).reshape(-1)]:
-                probs.append("block contents / order differ from the row-major grid over the merged shape")
-                break
+        non1 = [d for d in shape if d != 1] or [1]
+        cands = []
+        for cuts in itertools.product((0, 1), repeat=len(non1) - 1):
+            runs, cur = [], [non1[0]]
+            for c, d_ in zip(cuts, non1[1:]):
+                if c:
+                    runs.append(cur)
+                    cur = [d_]
+                else:
+                    cur.append(d_)
+            runs.append(cur)
+            if all(len(r) == 1 or prod(r) <= mpd for r in runs):
+                cands.append(tuple(prod(r) for r in runs))
+        if not shape:
+            cands.append(())
+    if not any(grid_matches(ms_) for ms_ in cands):
+        probs.append(f"blocks (shapes {[tuple(b.shape) for b in blocks][:4]}) are not the row-major grid over " +
+                     ("the original shape (merging is off)" if not merge else "any valid fusion of the dims"))
     # views: writing through a block changes the parameter
     before = flat(p)
     for i, b in enumerate(blocks):
@@ -166,7 +192,7 @@ def tiling_sweep(tier):
     try:
         for shape in shapes:
             for mpd in limits:
-                for merge in (False, True):
+                for merge in (False, True, False):  # off after on as well: state leaking between the two settings must not matter
                     n += 1
                     try:
                         pr = check_tiling(shape, mpd, merge)
@@ -271,7 +297,9 @@ def replay(record):
     kind = (info.get("signature") or {}).get("kind")
     cfg = info.get("cfg", {})
     if kind == "tiling":
-        pr = check_tiling(tuple(cfg["shape"]), cfg["mpd"], cfg["merge"])
+        pr = []
+        for mg in (False, True, False):  # the same order as the sweep: state leaking between the settings is part of the input
+            pr += [f"(merge {mg}) {x}" for x in check_tiling(tuple(cfg["shape"]), cfg["mpd"], mg)]
         return bool(pr), f"real torch, shape {cfg['shape']} limit {cfg['mpd']} merge {cfg['merge']}: {pr or 'tiling relations hold'}"
     if kind == "merge-arithmetic":
         from distributed_shampoo.utils.shampoo_utils import merge_small_dims
